@@ -16,7 +16,7 @@ def plan(tier):
                 watchdog_s=1800 if tier == 'quick' else 10000,
                 rule='relation instances over random geometries, laminates (unsymmetric/offset), edge-flag patterns (mapped consistently under '
                      'the axis exchange), load triples, series orders and positive scale factors s, e, q; six relations in rotation: cone(alpha=0) vs '
-                     'cylinder (k0,kG0,kM incl. sub-intervals), cylinder -> plate as r grows (bounded restatement: difference shrinks >= 8x per decade), '
+                     'cylinder (k0,kG0,kM incl. sub-intervals), cylinder -> plate as r grows (bounded restatement: the difference is exactly C1/r + C2/r^2 entry-wise - fitted at two radii, verified at four more - and below 1e-4 at r = 1e7 b), '
                      'w-only plate vs w block of the full plate (k0,kG0,kM,kA,cA), numerically integrated kL at c=0 vs analytic k0, x<->y exchange '
                      '(eigenvalues), similarity scaling (eigenvalues); non-trivial = unsymmetric laminate or non-ss flags or sub-interval; '
                      'distinct = hash of the description',
@@ -123,24 +123,28 @@ def rel_cyl_to_plate(c, rng, tier, N):
     P, _ = mats(d, N)
     if not np.abs(P['k0']).max() > 0:
         return c.reject('degenerate: no active amplitude')
-    prev = None
     seq = []
+    E = {}
     for dec in range(2, 8):
         cd = dict(d); cd['model'] = 'cpanel'; cd['r'] = d['b'] * 10.0 ** dec
         Cm, _ = mats(cd, N)
-        diff = float(np.abs(Cm['k0'] - P['k0']).max() / np.abs(P['k0']).max())
-        seq.append(diff)
+        E[dec] = Cm['k0'] - P['k0']
+        seq.append(float(np.abs(E[dec]).max() / np.abs(P['k0']).max()))
         # kG0 and kM carry no curvature term at all
         c.judge('cylindrical kG0 independent of the radius', rel(Cm['kG0'], P['kG0']), 1e-12)
         c.judge('cylindrical kM independent of the radius', rel(Cm['kM'], P['kM']), 1e-12)
-        prev = diff
     c.info['diffs'] = seq
-    # bounded restatement of "tends to the flat plate": every entry of the difference is c1/r + c2/r^2, so once the
-    # 1/r part dominates (r/b >= 1e5) the difference must fall by 10x per decade, and it must be small at 1e7
-    for dec, (d0, d1) in zip(range(6, 8), zip(seq[3:-1], seq[4:])):
-        if d0 > 1e-10:
-            c.expect('difference to the flat plate falls by 10x..100x per decade of radius for r/b >= 1e5', 8.0 <= d0 / max(d1, 1e-300) <= 125.,
-                     'r/b=1e%d -> 1e%d: %.3e -> %.3e' % (dec - 1, dec, d0, d1))
+    # bounded restatement of "tends to the flat plate": the Donnell cylinder adds w/r to one membrane strain only, so
+    # every entry of k0(r) - k0(plate) is exactly C1/r + C2/r^2.  C1, C2 are fitted at r/b = 1e2, 1e3 and the law is
+    # verified at 1e4..1e7 (whichever of the two parts dominates there), and the difference must be small at 1e7.
+    x2, x3 = 1e-2, 1e-3
+    C2 = (E[2] / x2 - E[3] / x3) / (x2 - x3)
+    C1 = E[2] / x2 - C2 * x2
+    sc = np.abs(P['k0']).max()
+    for dec in range(4, 8):
+        x = 10.0 ** -dec
+        c.judge('k0(r) - k0(plate) = C1/r + C2/r^2 (fitted at r/b = 1e2, 1e3; verified at 1e%d)' % dec,
+                float(np.abs(E[dec] - (C1 * x + C2 * x * x)).max() / sc), 1e-12)
     c.judge('cylindrical panel of radius 1e7*b is within 1e-4 of the flat plate', seq[-1], 1e-4)
     c.nontrivial = True
     return c
